@@ -29,7 +29,7 @@ txt = f'''### 9.4 Which checks catch which deliberate changes
 listed with their detecting oracle in the builders' reports) and of `seeded/*/patch.diff` to a scratch worktree and
 expects the property's quick check to print VIOLATION.
 
-**Independent seeded changes** ({n}, seven rounds of one per property). Written by fresh sub-agents that saw only the
+**Independent seeded changes** ({n}, seven rounds of one per property and an eighth round for ten of them). Written by fresh sub-agents that saw only the
 property text and a scratch worktree, nothing of /verif; every later round was told what the earlier ones had tried and
 asked for a different weakness, in a different place or of a different kind. Each was confirmed by the coordinator (`tools/seedkeep.sh`: the repository's suite passes with the
 change, the agent's demonstration fails with it and passes without it, after rebasing the change onto /repo's HEAD)
